@@ -149,6 +149,43 @@ func genCase(r *h.Rand, emit func([]string)) {
 	emit(ops)
 }
 
+// genWiden: a group is created and deleted (not pruned), the shard group duration is increased, a
+// write into the old range creates the wider group over the deleted one, then writes land inside the
+// wide group before / after the deleted group: every lookup must still find the one wide group.
+func genWiden(r *h.Rand, emit func([]string)) {
+	base := h.Pick(r, []int64{m.Hour, 2 * m.Hour, m.Day})
+	k := h.Pick(r, []int64{4, 6, 8, 12, 24})
+	wide := base * k
+	// a wide-group start (multiple of `wide` since year 1; 62135596800 s is a multiple of 24h*... so use TruncBounds)
+	anchor := h.Pick(r, []int64{0, 1_700_000_000_000_000_000, -2_000_000_000_000_000_000, 40 * m.Day}) + r.Range(-50, 50)*wide
+	ws, _ := m.TruncBounds(anchor, wide)
+	w0 := ws.Int64()
+	j := r.Range(1, k-1) // the old group is the j-th base-sized slot of the wide range (never the first)
+	t1 := w0 + j*base + r.Range(0, base-1)
+	ops := []string{m.Fmt("rp db0 rp0 %d 1", base), m.Fmt("ms db0 rp0 - %d", t1), "del db0 rp0 1"}
+	if r.Chance(0.3) {
+		ops = append(ops, "restart")
+	}
+	ops = append(ops, m.Fmt("sgd db0 rp0 %d", wide))
+	tIn := w0 + j*base + r.Range(0, base-1)
+	ops = append(ops, m.Fmt("ms db0 rp0 - %d", tIn), "dump db0 rp0")
+	before := w0 + r.Range(0, j*base-1)
+	after := w0 + (j+1)*base + r.Range(0, (k-j-1)*base-1)
+	ts := []int64{before, after, w0, w0 + wide - 1}
+	for i := 0; i < 2+r.Intn(3); i++ {
+		t := h.Pick(r, ts)
+		if r.Bool() {
+			ops = append(ops, m.Fmt("ms db0 rp0 - %d", t))
+		} else {
+			ops = append(ops, m.Fmt("csg db0 rp0 %d", t))
+		}
+		ops = append(ops, m.Fmt("find db0 rp0 %d", t))
+	}
+	ops = append(ops, m.Fmt("find db0 rp0 %d", before), m.Fmt("range db0 rp0 %d %d", w0, w0+wide-1), "dump db0 rp0", "restart",
+		m.Fmt("find db0 rp0 %d", tIn), m.Fmt("find db0 rp0 %d", before), "dump db0 rp0")
+	emit(ops)
+}
+
 func gen(r *h.Rand, tier string, emit func([]string)) {
 	// the F7 shape: the first group of the representable range, 7-day groups, reload, look up
 	emit([]string{"rp db0 rp0 0 0", m.Fmt("ms db0 rp0 - %d", m.MinNano), "dump db0 rp0", "restart", m.Fmt("find db0 rp0 %d", m.MinNano),
@@ -162,6 +199,9 @@ func gen(r *h.Rand, tier string, emit func([]string)) {
 	}
 	for i := 0; i < n; i++ {
 		genCase(r, emit)
+		if i%8 == 0 {
+			genWiden(r, emit)
+		}
 	}
 }
 
